@@ -470,11 +470,13 @@ func (c *Collection) CreateIndex(name string, config IndexConfig) (string, error
 		}
 	}
 
-	// return if existing index is equal
+	// return if existing index is equal, an existing index with the same name
+	// but another configuration must not be replaced
 	if index, ok := c.Indexes[name]; ok {
 		if config.Equal(index.Config()) {
 			return name, nil
 		}
+		return "", fmt.Errorf("existing index %q has a different configuration", name)
 	}
 
 	// check duplicate
